@@ -77,7 +77,7 @@ def step_run(mode, M, V, NT=None, n=(1800, 24000), extra=None):
     return dict(component="step", require="Corr.StepCorr", require_vo="Corr/StepCorr.vo",
                 n=dict(quick=n[0], thorough=n[1]), shard=150, opts=dict(mode=mode), evals=evals, counts=counts)
 
-def walk_run(mode, M, V, NT=None, n=(320, 6400), extra=None):
+def walk_run(mode, M, V, NT=None, n=(480, 8000), extra=None):
     evals = dict(M=M, V=V)
     counts = ()
     if NT:
@@ -145,7 +145,10 @@ PROPS.update({
              "unserialisable emission. Compared: emitted lists only, per stride. non-trivial = the node's action emits.",
         assumptions=[],
         runs=[step_run("c08", "c08_step_violations", "c08_step_violations"),
-              walk_run("c08", "c08_walk_violations", "c08_walk_violations", "c08_nontrivial")],
+              walk_run("c08", "c08_walk_violations", "c08_walk_violations", "c08_nontrivial"),
+              dict(component="funcexec", require="Corr.FuncExecCorr", require_vo="Corr/FuncExecCorr.vo",
+                   n=dict(quick=1500, thorough=20000), shard=500, opts=dict(mode="c08"),
+                   evals=dict(M="fexec_mismatches", V="fexec_c08_violations"))],
     ),
     "C18": dict(
         level="proof", trusted=ENGINE_TRUSTED,
@@ -156,7 +159,10 @@ PROPS.update({
         assumptions=["an action that returns null (no bindings at all) is outside the property's 'returns bindings'"],
         runs=[step_run("c18", "no_mismatches", "c18_violations", "c18_nontrivial"),
               dict(walk_run("c18", "no_mismatches", "c18_walk_violations", "c18_walk_nontrivial", n=(240, 4800)),
-                   opts=dict(mode="c18", cycles="1"))],
+                   opts=dict(mode="c18", cycles="1")),
+              dict(component="funcexec", require="Corr.FuncExecCorr", require_vo="Corr/FuncExecCorr.vo",
+                   n=dict(quick=1500, thorough=20000), shard=500, opts=dict(mode="c18"),
+                   evals=dict(M="fexec_mismatches", V="fexec_c18_violations", NT="fexec_c18_nontrivial"), counts=("NT",))],
     ),
 })
 
